@@ -100,6 +100,47 @@ def enforcement_sites(pm):
     return out
 
 
+def on_demand_population(pm, ctx, rule):
+    """_resolve_type populates a still-forward referenced type on demand: it
+    must do so in the environment the name was looked up in (the referenced
+    namespace's), for structs and unions alike, cycle-guarded.  Shared by C01,
+    C02 and C11."""
+    rt = pm.func(GEN + '._resolve_type')
+    pi = path_info(rt.node)
+    pops = [c for c in own_nodes(rt.node) if isinstance(c, ast.Call) and
+            call_name(c) in ('_populate_struct_type_attributes',
+                             '_populate_union_type_attributes')]
+    lookups = [n for n in own_nodes(rt.node) if isinstance(n, ast.Subscript) and
+               unparse(n.slice) == 'type_ref.name' and isinstance(n.ctx, ast.Load)]
+    lookup_envs = {unparse(n.value) for n in lookups}
+    ok = len(pops) == 2 and len(lookup_envs) == 1 and \
+        all(unparse(c.args[0]) in lookup_envs and unparse(c.args[1]) == 'data_type' for c in pops)
+    ctx.check(rule, ok, '_resolve_type populates a forward reference on demand in the '
+              'environment the name was looked up in (struct and union alike)', rt.loc,
+              msg='on-demand population in _resolve_type is not given the environment of the '
+                  'referenced namespace (%s vs lookup in %s)' % (
+                      [unparse(c.args[0]) for c in pops], sorted(lookup_envs)),
+              key='%s|%s|on-demand-env' % (rule, rt.qualname))
+    for c in pops:
+        ats = {unparse(e): pol for e, pol in pi.at(c)}
+        ctx.check(rule, ats.get('enforce_fully_defined') is True and
+                  ats.get('data_type._is_forward_ref') is True and
+                  ats.get('isinstance(data_type, UserDefined)') is True and
+                  ats.get('data_type in self._resolution_in_progress') is False,
+                  '%s only for a still-forward user type, cycle-guarded' % call_name(c),
+                  '%s:%d' % (rt.module.relpath, c.lineno),
+                  msg='on-demand population guard changed: %s' % ats,
+                  key='%s|%s|on-demand-guard|%s' % (rule, rt.qualname, call_name(c)))
+    # the environment is rebound to the referenced namespace's before the lookup
+    rebind = [n for n in own_nodes(rt.node) if isinstance(n, ast.Assign) and
+              unparse(n) == 'env = env[type_ref.ns]']
+    ctx.check(rule, len(rebind) == 1 and any(unparse(e) == 'type_ref.ns' and pol
+                                             for e, pol in pi.at(rebind[0])),
+              '_resolve_type switches to the referenced namespace\'s environment for `ns.T`',
+              rt.loc, msg='_resolve_type no longer looks `ns.T` up in the environment of ns',
+              key='%s|%s|rebind' % (rule, rt.qualname))
+
+
 def run(pm, ctx):
     for r, t in (('C01-R1', 'enforcement sites exist (not fewer than confirmed) and are reachable'),
                  ('C01-R2', 'pass sequence of generate_IR'),
@@ -244,30 +285,7 @@ def run(pm, ctx):
     # R3c _resolve_type details
     rt = pm.func(GEN + '._resolve_type')
     pi = path_info(rt.node)
-    pops = [c for c in own_nodes(rt.node) if isinstance(c, ast.Call) and
-            call_name(c) in ('_populate_struct_type_attributes',
-                             '_populate_union_type_attributes')]
-    lookups = [n for n in own_nodes(rt.node) if isinstance(n, ast.Subscript) and
-               unparse(n.slice) == 'type_ref.name' and isinstance(n.ctx, ast.Load)]
-    lookup_envs = {unparse(n.value) for n in lookups}
-    ok = len(pops) == 2 and len(lookup_envs) == 1 and \
-        all(unparse(c.args[0]) in lookup_envs and unparse(c.args[1]) == 'data_type' for c in pops)
-    ctx.check('C01-R3', ok, '_resolve_type populates a forward reference on demand in the '
-              'environment the name was looked up in (struct and union alike)', rt.loc,
-              msg='on-demand population in _resolve_type is not given the environment of the '
-                  'referenced namespace (%s vs lookup in %s)' % (
-                      [unparse(c.args[0]) for c in pops], sorted(lookup_envs)),
-              key='C01-R3|%s|on-demand-env' % rt.qualname)
-    for c in pops:
-        ats = {unparse(e): pol for e, pol in pi.at(c)}
-        ctx.check('C01-R3', ats.get('enforce_fully_defined') is True and
-                  ats.get('data_type._is_forward_ref') is True and
-                  ats.get('isinstance(data_type, UserDefined)') is True and
-                  ats.get('data_type in self._resolution_in_progress') is False,
-                  '%s only for a still-forward user type, cycle-guarded' % call_name(c),
-                  '%s:%d' % (rt.module.relpath, c.lineno),
-                  msg='on-demand population guard changed: %s' % ats,
-                  key='C01-R3|%s|on-demand-guard|%s' % (rt.qualname, call_name(c)))
+    on_demand_population(pm, ctx, 'C01-R3')
     nn = [n for n in own_nodes(rt.node) if isinstance(n, ast.Raise) and
           any(unparse(e) == 'isinstance(unwrapped_dt, Nullable)' and pol for e, pol in pi.at(n))]
     from ..dataflow import defs
